@@ -474,28 +474,31 @@ Record neg2 := {
   n2_security_mode : N;
   n2_capabilities : N;
   n2_client_guid : bytes;
-  n2_dialects : list N
+  n2_dialects : list N;
+  n2_read : N          (* _dialects_read: entries read so far (u16, wrapping) *)
 }.
 Definition set_n2_d (s : neg2) (v : dis) : neg2 :=
-  {| n2_d := v; n2_tmp := n2_tmp s; n2_structure_size := n2_structure_size s; n2_dialect_count := n2_dialect_count s; n2_security_mode := n2_security_mode s; n2_capabilities := n2_capabilities s; n2_client_guid := n2_client_guid s; n2_dialects := n2_dialects s |}.
+  {| n2_d := v; n2_tmp := n2_tmp s; n2_structure_size := n2_structure_size s; n2_dialect_count := n2_dialect_count s; n2_security_mode := n2_security_mode s; n2_capabilities := n2_capabilities s; n2_client_guid := n2_client_guid s; n2_dialects := n2_dialects s; n2_read := n2_read s |}.
 Definition set_n2_tmp (s : neg2) (v : N) : neg2 :=
-  {| n2_d := n2_d s; n2_tmp := v; n2_structure_size := n2_structure_size s; n2_dialect_count := n2_dialect_count s; n2_security_mode := n2_security_mode s; n2_capabilities := n2_capabilities s; n2_client_guid := n2_client_guid s; n2_dialects := n2_dialects s |}.
+  {| n2_d := n2_d s; n2_tmp := v; n2_structure_size := n2_structure_size s; n2_dialect_count := n2_dialect_count s; n2_security_mode := n2_security_mode s; n2_capabilities := n2_capabilities s; n2_client_guid := n2_client_guid s; n2_dialects := n2_dialects s; n2_read := n2_read s |}.
 Definition set_n2_structure_size (s : neg2) (v : N) : neg2 :=
-  {| n2_d := n2_d s; n2_tmp := n2_tmp s; n2_structure_size := v; n2_dialect_count := n2_dialect_count s; n2_security_mode := n2_security_mode s; n2_capabilities := n2_capabilities s; n2_client_guid := n2_client_guid s; n2_dialects := n2_dialects s |}.
+  {| n2_d := n2_d s; n2_tmp := n2_tmp s; n2_structure_size := v; n2_dialect_count := n2_dialect_count s; n2_security_mode := n2_security_mode s; n2_capabilities := n2_capabilities s; n2_client_guid := n2_client_guid s; n2_dialects := n2_dialects s; n2_read := n2_read s |}.
 Definition set_n2_dialect_count (s : neg2) (v : N) : neg2 :=
-  {| n2_d := n2_d s; n2_tmp := n2_tmp s; n2_structure_size := n2_structure_size s; n2_dialect_count := v; n2_security_mode := n2_security_mode s; n2_capabilities := n2_capabilities s; n2_client_guid := n2_client_guid s; n2_dialects := n2_dialects s |}.
+  {| n2_d := n2_d s; n2_tmp := n2_tmp s; n2_structure_size := n2_structure_size s; n2_dialect_count := v; n2_security_mode := n2_security_mode s; n2_capabilities := n2_capabilities s; n2_client_guid := n2_client_guid s; n2_dialects := n2_dialects s; n2_read := n2_read s |}.
 Definition set_n2_security_mode (s : neg2) (v : N) : neg2 :=
-  {| n2_d := n2_d s; n2_tmp := n2_tmp s; n2_structure_size := n2_structure_size s; n2_dialect_count := n2_dialect_count s; n2_security_mode := v; n2_capabilities := n2_capabilities s; n2_client_guid := n2_client_guid s; n2_dialects := n2_dialects s |}.
+  {| n2_d := n2_d s; n2_tmp := n2_tmp s; n2_structure_size := n2_structure_size s; n2_dialect_count := n2_dialect_count s; n2_security_mode := v; n2_capabilities := n2_capabilities s; n2_client_guid := n2_client_guid s; n2_dialects := n2_dialects s; n2_read := n2_read s |}.
 Definition set_n2_capabilities (s : neg2) (v : N) : neg2 :=
-  {| n2_d := n2_d s; n2_tmp := n2_tmp s; n2_structure_size := n2_structure_size s; n2_dialect_count := n2_dialect_count s; n2_security_mode := n2_security_mode s; n2_capabilities := v; n2_client_guid := n2_client_guid s; n2_dialects := n2_dialects s |}.
+  {| n2_d := n2_d s; n2_tmp := n2_tmp s; n2_structure_size := n2_structure_size s; n2_dialect_count := n2_dialect_count s; n2_security_mode := n2_security_mode s; n2_capabilities := v; n2_client_guid := n2_client_guid s; n2_dialects := n2_dialects s; n2_read := n2_read s |}.
 Definition set_n2_client_guid (s : neg2) (v : bytes) : neg2 :=
-  {| n2_d := n2_d s; n2_tmp := n2_tmp s; n2_structure_size := n2_structure_size s; n2_dialect_count := n2_dialect_count s; n2_security_mode := n2_security_mode s; n2_capabilities := n2_capabilities s; n2_client_guid := v; n2_dialects := n2_dialects s |}.
+  {| n2_d := n2_d s; n2_tmp := n2_tmp s; n2_structure_size := n2_structure_size s; n2_dialect_count := n2_dialect_count s; n2_security_mode := n2_security_mode s; n2_capabilities := n2_capabilities s; n2_client_guid := v; n2_dialects := n2_dialects s; n2_read := n2_read s |}.
 Definition set_n2_dialects (s : neg2) (v : list N) : neg2 :=
-  {| n2_d := n2_d s; n2_tmp := n2_tmp s; n2_structure_size := n2_structure_size s; n2_dialect_count := n2_dialect_count s; n2_security_mode := n2_security_mode s; n2_capabilities := n2_capabilities s; n2_client_guid := n2_client_guid s; n2_dialects := v |}.
+  {| n2_d := n2_d s; n2_tmp := n2_tmp s; n2_structure_size := n2_structure_size s; n2_dialect_count := n2_dialect_count s; n2_security_mode := n2_security_mode s; n2_capabilities := n2_capabilities s; n2_client_guid := n2_client_guid s; n2_dialects := v; n2_read := n2_read s |}.
+Definition set_n2_read (s : neg2) (v : N) : neg2 :=
+  {| n2_d := n2_d s; n2_tmp := n2_tmp s; n2_structure_size := n2_structure_size s; n2_dialect_count := n2_dialect_count s; n2_security_mode := n2_security_mode s; n2_capabilities := n2_capabilities s; n2_client_guid := n2_client_guid s; n2_dialects := n2_dialects s; n2_read := v |}.
 
 Definition neg2_new : neg2 :=
   {| n2_d := d_new N2_STRUCTURESIZE; n2_tmp := 0; n2_structure_size := 0; n2_dialect_count := 0;
-     n2_security_mode := 0; n2_capabilities := 0; n2_client_guid := zeros 16; n2_dialects := [] |}.
+     n2_security_mode := 0; n2_capabilities := 0; n2_client_guid := zeros 16; n2_dialects := []; n2_read := 0 |}.
 
 Definition set_mem (x : N) (l : list N) : bool := existsb (N.eqb x) l.
 Definition set_insert (x : N) (l : list N) : list N := if set_mem x l then l else l ++ [x].
@@ -526,10 +529,11 @@ Definition neg2_byte (s : neg2) (b : N) : res neg2 :=
     let '(v, d1) := r in
     if d_i d1 =? 0 then
       (* a 2-byte dialect is complete: insert; the list is finished when the
-         number of DISTINCT dialects seen equals DialectCount (smb.rs:886) *)
+         number of entries read equals DialectCount *)
       let ds := set_insert v (n2_dialects s) in
-      let d2 := if lenN ds =? n2_dialect_count s then d_force d1 N2_END else d1 in
-      Ok (set_n2_d (set_n2_tmp (set_n2_dialects s ds) 0) d2)
+      let cnt := (n2_read s + 1) mod W16 in
+      let d2 := if cnt =? n2_dialect_count s then d_force d1 N2_END else d1 in
+      Ok (set_n2_d (set_n2_tmp (set_n2_read (set_n2_dialects s ds) cnt) 0) d2)
     else Ok (set_n2_d (set_n2_tmp s v) d1)
   else Ok s.
 
